@@ -309,11 +309,30 @@ def rule_r4(chk):
     # _populate_logly: listed -> not all_but ; unlisted -> all_but
     pl = sm.func("ModelSource._populate_logly")
     chk.saw(sm, "ModelSource._populate_logly")
-    src = unparse(pl).replace(" ", "")
-    ok = ("unlisted_logly=bool(all_but)" in src and "listed_logly=notunlisted_logly" in src
-          and "returnlisted_loglyifhumaninlog_variableselseunlisted_logly" in src)
-    chk.ob("C04-R4", "sources.ModelSource._populate_logly", ok,
-           "listed names are log-variables iff !all-but is absent; unlisted names iff it is present", sm.loc(pl))
+    from .. import fin
+    ps = params(pl)
+    bad, n_cases = None, 0
+    try:
+        for all_but in (True, False, None, 0, 1, "", "x"):
+            for listed in (("a", "b"), (), None, ["a"]):
+                qs = [fin.FinObj(kind="V", human=h, logly="untouched") for h in ("a", "b", "c")] + [fin.FinObj(kind="P", human="a", logly="untouched")]
+                env = {"self.quantities": qs, "QuantityKind.LOGGABLE_VARIABLE": ("V",), "self": "SELF"}
+                fin.run_function(pl, {ps[1]: listed, ps[2]: all_but}, env=env)
+                n_cases += 1
+                for q in qs:
+                    want = ((q.human in (listed or ())) != bool(all_but)) if q.kind == "V" else "untouched"
+                    if q.logly != want and not (want != "untouched" and bool(q.logly) == want and isinstance(q.logly, bool)):
+                        bad = (listed, all_but, q.human, q.kind, q.logly, want)
+                        break
+                if bad:
+                    break
+            if bad:
+                break
+        chk.ob("C04-R4", "sources.ModelSource._populate_logly", bad is None,
+               f"{n_cases} cases (listed names x !all-but flag): a loggable variable is a log-variable iff (it is listed) != (!all-but present); other kinds untouched"
+               if bad is None else f"log list {bad[0]}, all_but={bad[1]!r}: {bad[3]} quantity {bad[2]!r} gets logly={bad[4]!r} (want {bad[5]!r})", sm.loc(pl))
+    except fin.NotFinite as ex:
+        chk.undecided("C04-R4", "sources.ModelSource._populate_logly", f"not evaluable: {ex}", sm.loc(pl))
 
 
 def rule_r5(chk):
